@@ -169,7 +169,10 @@ class _Jac(LinearOperator):
             dfdyf, = torch.autograd.grad(dfdy, (v,), grad_outputs=gy1[i].reshape(self.inshape),
                                          retain_graph=True, create_graph=torch.is_grad_enabled())  # (*nout)
             dfdyfs_list.append(dfdyf.unsqueeze(0))
-        dfdyfs = torch.cat(dfdyfs_list, dim=0)  # (nbatch, *nout)
+        if nbatch > 0:
+            dfdyfs = torch.cat(dfdyfs_list, dim=0)  # (nbatch, *nout)
+        else:  # an empty batch of vectors
+            dfdyfs = gy1.new_zeros((0, self.nout))
 
         res = dfdyfs.reshape(*gy.shape[:-1], self.nout)  # (..., nout)
         res = connect_graph(res, self.params_tensor)
@@ -195,7 +198,10 @@ class _Jac(LinearOperator):
             one_dfdy, = torch.autograd.grad(yout, (yparam,), grad_outputs=gout1[i].reshape(self.outshape),
                                             retain_graph=True, create_graph=torch.is_grad_enabled())  # (*nin)
             dfdy_list.append(one_dfdy.unsqueeze(0))
-        dfdy = torch.cat(dfdy_list, dim=0)  # (nbatch, *nin)
+        if nbatch > 0:
+            dfdy = torch.cat(dfdy_list, dim=0)  # (nbatch, *nin)
+        else:  # an empty batch of vectors
+            dfdy = gout1.new_zeros((0, self.nin))
 
         res = dfdy.reshape(*gout.shape[:-1], self.nin)  # (..., nin)
         res = connect_graph(res, self.params_tensor)
